@@ -128,7 +128,7 @@ impl KeyStore for Store {
                 Ok(fd) => {
                     break Entry::Vacant(VacantEntry::new(self.root.as_fd(), fd, alias));
                 }
-                Err(Errno::NOENT) => {
+                Err(Errno::EXIST) => {
                     // Guess somebody created the file before we
                     // could. Try to open it again.
                 }
